@@ -505,7 +505,32 @@ def check_c05(pid, tier):
                       "at least two different orders")
     for t in traces[:2]:
         ev.sample({"cfg": t["cfg"], "link_order": t.get("link_order"), "end": t["end"]})
+    gridded_order(pid, tier, ev, rng, violations, machinery)
     return finish(pid, ev, out_lines, violations, machinery)
+
+
+def gridded_order(pid, tier, ev, rng, violations, machinery):
+    """Order of the metadata exchange on a gridded output with two consumers of differently laid-out grids
+    (Grid.tla link cases): whichever consumer exchanges first, the observed consumer receives the same, and
+    correctly located, data (Grid_Trace decides each run; both orders must agree)."""
+    from .fn_engine import run_cases
+    cases = [c for c in tlc.emit("GridEmit", {"WHAT": "link"})
+             if not c.get("st") and not c.get("stk") and c["dst"]["kind"] != "esri"]
+    cases = rng.sample(cases, min(len(cases), 700 if tier == "quick" else 8000))
+    jobs = [dict(c, prime=o) for c in cases for o in ("first", "second")]
+    traces = run_cases("grid_run", "run_case", jobs)
+    if any("harness_error" in t for t in traces):
+        machinery.append("harness errors in the gridded order cases")
+        return
+    acc, tot, bad, gen, _ = tlc.validate("Grid_Trace", traces)
+    ev.add_traces("Grid_Trace/two consumers, both exchange orders", acc, tot, gen)
+    for k, verdict in sorted(bad.items()):
+        path = save_replay(pid, {"kind": "grid-case", "verdict": verdict, "trace": traces[k]}) if len(violations) < 10 else "(not saved)"
+        violations.append((pid, f"gridded output with two consumers ({traces[k]['case']['prime']}): {verdict}", path))
+    for a, b in zip(traces[0::2], traces[1::2]):
+        if a["obs"] != b["obs"]:
+            path = save_replay(pid, {"kind": "grid-case", "verdict": "order-dependent@1", "trace": a}) if len(violations) < 10 else "(not saved)"
+            violations.append((pid, "the data a consumer receives depends on which consumer exchanged its metadata first", path))
 
 
 def finish(pid, ev, out_lines, violations, machinery):
@@ -540,6 +565,9 @@ def replay(pid, path):
             return 1
         print("replayed pair of orders agrees")
         return 0
+    if rp.get("kind") == "grid-case":
+        from .fn_engine import replay_fn
+        return replay_fn(pid, path, "Grid_Trace", ("grid_run", "run_case"), lambda v, c: pid)
     if rp.get("kind") == "run2-trace":
         from .fn_engine import _run
         t = _run(("connect2_run", "run_full", rp["trace"]["cfg"]))
